@@ -1366,6 +1366,225 @@ theorem ok_step (V : Env σ ω) {plain : Bool} (hE : EngOk V.E plain) (who : Who
     · rw [hD, q1] at hsame
       exact absurd hsame (List.cons_ne_self _ _)
 
+/-! ### the simulation relation, induction over the history, the theorem -/
+
+structure EpRel (m : Ep σ ω) (e : EpSt) : Prop where
+  async : e.async = m.async
+  idle : m.async = true → e.callT = none
+  disc : m.async = true → e.discSeen = m.a.disconnects
+  reg : m.a.registered = true → m.a.disconnects = 0
+  stash : m.async = false → m.st.g.pendingError = none
+
+def OptRel : Option (Ep σ ω) → Option EpSt → Prop
+  | none, none => True
+  | some a, some b => EpRel a b
+  | _, _ => False
+
+structure Rel (m : Sys σ ω) (sp : SpecSt) : Prop where
+  plain : sp.plain = m.plain
+  c : OptRel m.c sp.c
+  s : OptRel m.s sp.s
+
+theorem optRel_some {a : Ep σ ω} {o : Option EpSt} (h : OptRel (some a) o) : ∃ e, o = some e ∧ EpRel a e := by
+  cases o with
+  | none => exact absurd h (by simp [OptRel])
+  | some e => exact ⟨e, rfl, h⟩
+
+theorem rel_get {m : Sys σ ω} {sp : SpecSt} (hR : Rel m sp) {who : Who} {a : Ep σ ω} (h : m.ep? who = some a) :
+    ∃ e, sp.ep? who = some e ∧ EpRel a e := by
+  cases who with
+  | c => simp only [Sys.ep?] at h; have := hR.c; rw [h] at this; exact optRel_some this
+  | s => simp only [Sys.ep?] at h; have := hR.s; rw [h] at this; exact optRel_some this
+  | other n => simp [Sys.ep?] at h
+
+theorem rel_set {m : Sys σ ω} {sp : SpecSt} (hR : Rel m sp) {who : Who} {a a' : Ep σ ω} {e' : EpSt}
+    (h : m.ep? who = some a) (hr : EpRel a' e') : Rel (m.setEp who a') (sp.setEp who e') := by
+  cases who with
+  | c => exact ⟨hR.plain, hr, hR.s⟩
+  | s => exact ⟨hR.plain, hR.c, hr⟩
+  | other n => simp [Sys.ep?] at h
+
+theorem plain_setEpM (m : Sys σ ω) (who : Who) (a : Ep σ ω) : (m.setEp who a).plain = m.plain := by
+  cases who <;> rfl
+
+theorem step_ok (V : Env σ ω) (hW : VClock V.W) (m : Sys σ ω) (hE : EngOk V.E m.plain) (sp : SpecSt) (op : Op)
+    (tail : List Obs) (hR : Rel m sp) (hna : ∀ o ∈ (sysStep V m op).2, o.isAbort = false) :
+    ∃ sp', specRun sp ((sysStep V m op).2 ++ tail) = specRun sp' tail ∧ Rel (sysStep V m op).1 sp' ∧
+      (sysStep V m op).1.plain = m.plain := by
+  cases op with
+  | send who data T =>
+    simp only [sysStep] at hna ⊢
+    cases hm : m.ep? who with
+    | none => exact ⟨sp, rfl, hR, rfl⟩
+    | some ep =>
+      rw [hm] at hna
+      simp only at hna ⊢
+      by_cases ha : ep.async = true
+      · rw [if_pos ha]; exact ⟨sp, rfl, hR, rfl⟩
+      · rw [if_neg ha] at hna ⊢
+        have ha' : ep.async = false := by simpa using ha
+        obtain ⟨e, he, hr⟩ := rel_get hR hm
+        have hno : ∀ mm, (sendT V.C (obsWorld V.W) V.E (fresh ep.st) data T).1 ≠ .abort mm := by
+          intro mm hmm
+          have := hna (sendRet who (sendT V.C (obsWorld V.W) V.E (fresh ep.st) data T).1) (by simp [epSend])
+          rw [hmm] at this
+          simp [sendRet, Obs.isAbort] at this
+        obtain ⟨e', hrun, h1, h2, h3, h4⟩ := ok_send V hW hE who ep data T sp e tail he (hr.stash ha') hno
+        refine ⟨sp.setEp who e', hrun, rel_set hR hm ⟨by rw [h1, hr.async]; rfl, ?_, ?_, hr.reg, fun _ => h4⟩, plain_setEpM _ _ _⟩
+        · intro h; simp [epSend, ha'] at h
+        · intro h; simp [epSend, ha'] at h
+  | recv who T =>
+    simp only [sysStep] at hna ⊢
+    cases hm : m.ep? who with
+    | none => exact ⟨sp, rfl, hR, rfl⟩
+    | some ep =>
+      rw [hm] at hna
+      simp only at hna ⊢
+      by_cases ha : ep.async = true
+      · rw [if_pos ha]; exact ⟨sp, rfl, hR, rfl⟩
+      · rw [if_neg ha] at hna ⊢
+        have ha' : ep.async = false := by simpa using ha
+        obtain ⟨e, he, hr⟩ := rel_get hR hm
+        have hno : ∀ mm, (receiveT V.C (obsWorld V.W) V.E (fresh ep.st) ep.rsz T).1 ≠ .abort mm := by
+          intro mm hmm
+          have := hna (recvRet who (receiveT V.C (obsWorld V.W) V.E (fresh ep.st) ep.rsz T).1) (by simp [epRecv])
+          rw [hmm] at this
+          simp [recvRet, Obs.isAbort] at this
+        obtain ⟨e', hrun, h1, h2, h3, h4⟩ := ok_recv V hW hE who ep T sp e tail he hR.plain (hr.stash ha') hno
+        refine ⟨sp.setEp who e', hrun, rel_set hR hm ⟨by rw [h1, hr.async]; rfl, ?_, ?_, hr.reg, fun _ => h4⟩, plain_setEpM _ _ _⟩
+        · intro h; simp [epRecv, ha'] at h
+        · intro h; simp [epRecv, ha'] at h
+  | enq who buf =>
+    simp only [sysStep]
+    cases hm : m.ep? who with
+    | none => exact ⟨sp, rfl, hR, rfl⟩
+    | some ep =>
+      simp only
+      by_cases ha : ep.async = true
+      · rw [if_pos ha]
+        obtain ⟨e, he, hr⟩ := rel_get hR hm
+        refine ⟨sp, rfl, ?_, plain_setEpM _ _ _⟩
+        have := rel_set (e' := e) hR hm (a' := { ep with a := (enqueue { a := ep.a, s := ep.st } buf).a })
+          ⟨hr.async, hr.idle, hr.disc, hr.reg, hr.stash⟩
+        rw [setEp_self he] at this
+        exact this
+      · rw [if_neg ha]; exact ⟨sp, rfl, hR, rfl⟩
+  | step who rev first =>
+    simp only [sysStep] at hna ⊢
+    cases hm : m.ep? who with
+    | none => exact ⟨sp, rfl, hR, rfl⟩
+    | some ep =>
+      rw [hm] at hna
+      simp only at hna ⊢
+      by_cases ha : ep.async = true
+      · rw [if_pos ha] at hna ⊢
+        obtain ⟨e, he, hr⟩ := rel_get hR hm
+        obtain ⟨e', hrun, h1, h2, h3, h4⟩ := ok_step V hE who ep rev first sp e tail he hR.plain (hr.idle ha) (hr.disc ha)
+          hr.reg hna
+        refine ⟨sp.setEp who e', hrun, rel_set hR hm ⟨by rw [h1, hr.async]; rfl, fun _ => h2, fun _ => h3, h4, ?_⟩,
+          plain_setEpM _ _ _⟩
+        intro h; simp [epStep, ha] at h
+      · rw [if_neg ha]; exact ⟨sp, rfl, hR, rfl⟩
+
+theorem run_ok (V : Env σ ω) (hW : VClock V.W) : ∀ (hist : List Op) (m : Sys σ ω) (sp : SpecSt) (tail : List Obs),
+    EngOk V.E m.plain → Rel m sp → (∀ o ∈ (modelOps V m hist).2, o.isAbort = false) →
+    ∃ sp', specRun sp ((modelOps V m hist).2 ++ tail) = specRun sp' tail ∧ Rel (modelOps V m hist).1 sp' := by
+  intro hist
+  induction hist with
+  | nil => intro m sp tail _ hR _; exact ⟨sp, rfl, hR⟩
+  | cons op rest ih =>
+    intro m sp tail hE hR hna
+    simp only [modelOps] at hna ⊢
+    obtain ⟨sp1, h1, hR1, hp1⟩ := step_ok V hW m hE sp op ((modelOps V (sysStep V m op).1 rest).2 ++ tail) hR
+      (fun o ho => hna o (List.mem_append_left _ ho))
+    obtain ⟨sp2, h2, hR2⟩ := ih (sysStep V m op).1 sp1 tail (by rw [hp1]; exact hE) hR1
+      (fun o ho => hna o (List.mem_append_right _ ho))
+    exact ⟨sp2, by rw [List.append_assoc, h1, h2], hR2⟩
+
+/-- a socket nobody has used yet -/
+def Ep.Fresh (ep : Ep σ ω) : Prop := ep.a.disconnects = 0 ∧ ep.st.g.pendingError = none
+
+def Sys.Fresh (m : Sys σ ω) : Prop := (∀ ep, m.c = some ep → ep.Fresh) ∧ (∀ ep, m.s = some ep → ep.Fresh)
+
+theorem Ep.init_fresh (cfg : EpCfg) (e : σ) (w : ω) : (Ep.init cfg e w).Fresh := ⟨rfl, rfl⟩
+
+theorem optRel_init (o : Option (Ep σ ω)) (h : ∀ ep, o = some ep → ep.Fresh) :
+    OptRel o ((o.map epCfg).map mkEp) := by
+  cases o with
+  | none => trivial
+  | some ep =>
+    obtain ⟨h1, h2⟩ := h ep rfl
+    exact ⟨rfl, fun _ => rfl, fun _ => h1.symm, fun _ => h1, fun _ => h2⟩
+
+theorem final_ok (V : Env σ ω) (m : Sys σ ω) (sp : SpecSt) : ∃ sp', specRun sp (finalObs V m) = .ok sp' := by
+  unfold finalObs
+  cases m.c <;> cases m.s <;> simp [epFinal, specRun, specStep]
+
+/-- **model_satisfies_spec_partial.**  `specRun` - every clause that `./check C18` evaluates event by event -
+accepts every trace of the glue model: for
+
+* every configuration `V.C` of the glue (round limit, asserts on / off, the legacy variants),
+* every kernel `V.W` with the virtual clock of the harness (`VClock`: A-CLOCK of `Props/C18.lean`, and a wait that
+  times out has waited for its whole timeout), answering anything (readiness, short / failed sends, any segmentation,
+  errors, end of stream),
+* every engine `V.E` under the contract `EngOk` (plaintext is handed out only after `init_finished` and never when the
+  peer does not speak TLS; fail-stop) - any state type, any adaptive interaction tree: the handshake may take any
+  course, stall, fail, never finish,
+* every starting state of the two endpoints (client / server, each synchronous or asynchronous or absent, TLS or plain
+  TCP peer) that is `Fresh`,
+* every history, of any length: `Send(data, T)` / `Receive(T)` with any timeout `T` (negative, zero, positive) on the
+  synchronous endpoints, `Send(buffer)` and driver steps with any `poll` result (including `DriverQuery`'s "received
+  data is held already") on the asynchronous ones, in any interleaving of the two sides,
+
+in which no `assert` of the glue fires (`hna`; a firing assert is a crash and IS rejected by the predicate - the
+asserts encode preconditions: `assert(i < handshakeStepsMax)` - the engine does not answer WANT_READ / WANT_WRITE
+`handshakeStepsMax` times in one call although `poll` reported the descriptor ready each time; `assert(timeout >= 0)` -
+an unlimited `Receive` is not left with nothing, see `Tls.tls_unlimited_receive_never_nothing`; the `pendingSend` assert -
+a `Send` that was cut short is retried with the same bytes, OpenSSL's retry rule).
+
+Hence, for all these histories: the waits of a call with `T < 0` are unlimited, with `T = 0` zero, with `T > 0`
+non-negative and within `T` in sum (however many handshake rounds, BIO calls and partial sends); `Receive` and the
+receive handler deliver only after an engine answer `done` with the handshake finished, never from a non-TLS peer,
+never an empty buffer; the disconnect handler runs at most once; every raw `send` carries MSG_NOSIGNAL.
+
+`_partial`: the END-OF-CASE clauses (`specFinal`) are not covered - see the comment below. -/
+theorem model_satisfies_spec_partial (V : Env σ ω) (hW : VClock V.W) (m0 : Sys σ ω) (hE : EngOk V.E m0.plain)
+    (h0 : m0.Fresh) (history : List Op) (hna : ∀ o ∈ modelTrace V m0 history, o.isAbort = false) :
+    ∃ s, specRun {} (modelTrace V m0 history) = .ok s := by
+  let sp0 : SpecSt := { c := (m0.c.map epCfg).map mkEp, s := (m0.s.map epCfg).map mkEp, plain := m0.plain,
+                        marker := m0.marker, cpay := m0.cpay, spay := m0.spay }
+  have hR0 : Rel m0 sp0 := ⟨rfl, optRel_init m0.c h0.1, optRel_init m0.s h0.2⟩
+  obtain ⟨sp1, h1, _⟩ := run_ok V hW history m0 sp0 (finalObs V (modelOps V m0 history).1) hE hR0
+    (fun o ho => hna o (by simp only [modelTrace, List.mem_append]; exact Or.inl (Or.inr ho)))
+  obtain ⟨sp2, h2⟩ := final_ok V (modelOps V m0 history).1 sp1
+  refine ⟨sp2, ?_⟩
+  have hs : specRun {} (modelTrace V m0 history) =
+      specRun sp0 ((modelOps V m0 history).2 ++ finalObs V (modelOps V m0 history).1) := by
+    simp only [modelTrace, setupObs, List.cons_append, List.nil_append, List.append_assoc, specRun, specStep]
+    rfl
+  rw [hs, h1, h2]
+
+/-
+FULL STATEMENT (not proved):
+
+  theorem model_satisfies_spec : ∀ V m0 history, … → ∃ s, specRun {} (modelTrace V m0 history) = .ok s ∧ specFinal s = none
+
+What is missing is `specFinal s = none`.  Its clauses are not statements about ONE endpoint's glue over an arbitrary
+engine and kernel, but about the two engines, the two kernels and the schedule together:
+* `wireClause` (marker, record framing, ClientHello / ServerHello first, TLS 1.2 record order) is about the bytes the
+  ENGINE hands to the write BIO.  What the glue contributes is proved for every history:
+  `Tls.plaintext_only_via_engine` (the raw stream is exactly the accepted prefixes of the engine's BIO writes; the
+  `wire` observation of `modelTrace` is that ghost field).  The clause itself stays a check on the implementation.
+* "received is a prefix of what the peer sent / everything arrived" needs an engine that decrypts to what the peer's
+  engine was given and a channel that carries bytes (the reference composition `Hs.Sys` counts bytes only);
+* "no failure on a healthy connection", "exchange not stuck", "handshake finished at the end", "a non-TLS peer is
+  reported" are liveness / health statements: the model proves them for one composition and schedule only
+  (`Hs.handshake_completes_partial`: both endpoints synchronous, timeout 0, polling schedule, reference engine, healthy
+  channel); for the other pairings they rest on the implementation matrix.  With an abstract engine they would be
+  hypotheses that assume the conclusion.
+`specFinal` is evaluated on model traces in the `example`s below.
+-/
+
 end Proof
 
 end SockModel.Tls.Spec
